@@ -1563,3 +1563,42 @@ def r_msg(ctx):
             run.check(bool(its) and all(i == ('c', 0) for i in its), 'R-MSG', dec, 'fast:cursor-starts-at-0', dec.nodes[loop.hid].lineno,
                       'output cursor starts at 0', 'the fast-mode output cursor `%s` starts at %s' % (c, [show(i) if i else None for i in its]),
                       inputs='every strand in fast mode')
+
+
+def r_raise(ctx, which=('encode', 'decode')):
+    """where encode / decode may fail: encode only inside its coder loops (decided per out-degree by R-DEG); decode inside
+    its coder loops, or on the comparison of the supplied check"""
+    run = ctx.run
+    run.rule('R-RAISE', "encode has no raise outside its coder loops (it is total: the only documented failures are a vertex "
+                        "without arcs and out-degree 3 in fast mode, both decided inside the loop); decode raises inside its coder "
+                        "loops (symbol is not an arc) or on the comparison of the supplied check, nowhere else: a walk is never "
+                        "rejected after it was followed")
+    vt = ('v', 'vt_check', 'P')
+    for name in which:
+        f = ctx.p.func('dsw.spiderweb.' + name)
+        loops = coder_loops(ctx, f)
+        heads = {l.hid for l in loops}
+        n = 0
+        for nd in f.stmts(ast.Raise):
+            n += 1
+            if any(h in nd.loops for h in heads):
+                continue
+            conds = ctx.conds(f, nd)
+            about_check = any(any(x == vt for x in walk_term(a)) and
+                              any(call_name(x) and call_name(x).endswith('.set_vt') for x in walk_term(a)) for a, p in conds)
+            role = 'raise-outside-the-walk@%d' % n
+            if name == 'decode' and about_check:
+                run.ok('R-RAISE', f, role, nd.lineno, 'the raise belongs to the comparison of the supplied check')
+                continue
+            txt = ' and '.join(('' if p else 'not ') + show(a)[:40] for a, p in conds[-2:]) or 'unconditionally'
+            if name == 'encode':
+                run.refute('R-RAISE', f, role, nd.lineno,
+                           "encode raises outside its coder loops (when %s): encoding is total on generated graphs - a start vertex or a "
+                           "message is never refused up front" % txt,
+                           inputs='retained vertices / messages that satisfy the new condition')
+            else:
+                run.refute('R-RAISE', f, role, nd.lineno,
+                           "decode raises outside its coder loops (when %s) although the strand was followed arc by arc: a walk of the "
+                           "graph is rejected (or a property of the decoded digits is made an error)" % txt,
+                           inputs='valid walks that satisfy the new condition (non-canonical walks, odd bit lengths, ...)')
+        run.floor('R-RAISE', 'raise statements of %s' % name, n, 1)
